@@ -15,13 +15,13 @@ PROPS = {
     },
     "C03": {
         "lean": "CedarProps.C03",
-        "engines": ["hsadv", "token"],
+        "engines": ["hsadv", "token", "resume", "clientcache"],
         "accept_props": {"token": ["C11"]},
-        "oracle_engine": {"hsadv": "hs", "token": "token"},
+        "oracle_engine": {"hsadv": "hs", "token": "token", "resume": "sc", "clientcache": "sc"},
         "trusted": ["authentication sub-protocols are oracles (method m ran with this peer and succeeded / failed); ECDH/HKDF symbolic (symmetric free symbol)"],
         "technique": "Lean 4 theorems over client/server handshake machines with a universally quantified peer script + correspondence against scripted adversarial peers speaking raw CEDAR to the real ClientHandshake/ServerHandshake",
-        "level_text": "client_required_auth, client_required_enc, client_reported_enc_is_real, client_reported_auth_is_real, client_only_offered_methods_run, server_required_auth, server_required_enc, server_reported_is_real, decided_enc_is_keyed: for every local policy and EVERY peer (all field values, all bitmask replies, any key material, any post-auth ad) — kernel-checked over the model. Tied to the code by the hsadv engine: both roles x 4x4 policies (+integrity) x method shapes x the property's deviation catalogue + random peers; the scripted peer records which exchanges really completed and the harness reads the stream's real encryption state.",
-        "level_note": "Resumed handshakes are covered under C06. Sub-protocol soundness (did a 'successful' method deserve to succeed) is C11/C18; because C03's theorems assume it, the token engine (C11) also runs under this check and its violations count here. Only CLAIMTOBE/PASSWORD/NONE/TOKEN(no token)/unknown names are exercised on the wire; the theorems cover all methods via the oracle abstraction.",
+        "level_text": "client_resume_required_auth / client_explicit_required_auth / server_resume_required_auth (an endpoint whose policy marks authentication REQUIRED resumes only a session that was established WITH authentication), client_required_auth, client_required_enc, client_reported_enc_is_real, client_reported_auth_is_real, client_only_offered_methods_run, server_required_auth, server_required_enc, server_reported_is_real, decided_enc_is_keyed: for every local policy and EVERY peer (all field values, all bitmask replies, any key material, any post-auth ad) — kernel-checked over the model. Tied to the code by the hsadv engine: both roles x 4x4 policies (+integrity) x method shapes x the property's deviation catalogue + random peers; the scripted peer records which exchanges really completed and the harness reads the stream's real encryption state.",
+        "level_note": "Resumed handshakes: that REQUIRED authentication is honoured on resumption is proved here over the session-cache model and exercised by the resume and clientcache engines (which therefore also run under this check); key possession and revival are C06. Sub-protocol soundness (did a 'successful' method deserve to succeed) is C11/C18; because C03's theorems assume it, the token engine (C11) also runs under this check and its violations count here. Only CLAIMTOBE/PASSWORD/NONE/TOKEN(no token)/unknown names are exercised on the wire; the theorems cover all methods via the oracle abstraction.",
         "assumptions": ["an authentication sub-protocol reports success only if it completed (C11, C18)"],
     },
     "C04": {
@@ -30,7 +30,7 @@ PROPS = {
         "oracle_engine": {"relay": "stream"},
         "trusted": [SYMBOLIC_CRYPTO],
         "technique": "Lean 4 theorems over the stream model's digest tracking and first-frame AAD (free hash constructor) + correspondence with in-transit edits of cleartext frames at the stream level and a byte-editing relay between two real handshaking endpoints",
-        "level_text": "sent_frames_are_fed / received_frames_are_fed (every cleartext frame before key installation, empty ones included, is hashed header+payload), transcript_binding (accepting a sender's first protected frame forces the receiver's (received, sent) digests to equal the sender's (sent, received)), same_digest_same_bytes, tamper_kills_first_frame: kernel-checked. Tied to the code by the relay engine: (1) stream level, model-compared: cleartext frames edited in transit (bit flips, flag flips, empty-frame insertion, removal, splitting, appended bytes) then keys installed and a protected message each way; (2) whole handshakes (no authentication, CLAIMTOBE, resumed) through a relay editing every frame of the transcript (byte offsets x substitutes, insertion, removal, splitting).",
+        "level_text": "transcript_determines_frames (the bytes fed to a digest determine the SEQUENCE of frames - number, flags, lengths, payloads - so splits, merges, inserted empty frames and rewritten end flags change the transcript), sent_frames_are_fed / received_frames_are_fed (every cleartext frame before key installation, empty ones included, is hashed header+payload), transcript_binding (accepting a sender's first protected frame forces the receiver's (received, sent) digests to equal the sender's (sent, received)), same_digest_same_bytes, tamper_kills_first_frame: kernel-checked. Tied to the code by the relay engine: (1) stream level, model-compared: cleartext frames edited in transit (bit flips, flag flips, empty-frame insertion, removal, splitting, appended bytes) then keys installed and a protected message each way; (2) whole handshakes (no authentication, CLAIMTOBE, resumed) through a relay editing every frame of the transcript (byte offsets x substitutes, insertion, removal, splitting).",
         "level_note": "Downgrade to a plaintext session is outside C04's hypothesis (C03/C10). Plain ReceiveFrame (GetSecret/GetFile) does not hash a zero-length frame: declared exception, fails closed. TOKEN-authenticated shapes are exercised by the C11 engine, not the relay.",
         "assumptions": ["SHA-256 collision-free (free constructor)"],
     },
@@ -51,7 +51,7 @@ PROPS = {
         "oracle_engine": {"resume": "sc"},
         "trusted": [SYMBOLIC_CRYPTO, "time is a parameter of the model (virtual time in the engine: entries re-stored with a past expiry)"],
         "technique": "Lean 4 theorems over the cache-as-finite-map and the server resumption machine (+ replay rejection from the symbolic AAD binding) + correspondence on a real server cache with scripted requests and byte-for-byte replays",
-        "level_text": "resume_needs_key (a successful resumption found a live, keyed entry; the stream is switched to that key; identity/authentication are the entry's), dead_not_resumed, invalidated_is_dead, never_stored_is_dead, other_ops_do_not_revive, expired_lookup_removes, replay_rejected + digests_differ (a frame recorded on another connection does not authenticate once request/reply carry fresh values): kernel-checked. Tied to the code by the resume engine: histories over establish/expire/renew/invalidate/gc with scripted requests (right/wrong/no key, unknown id, one character off, with/without reply, other address) and replays of both directions of a recorded resumed connection (whole/truncated).",
+        "level_text": "required_auth_not_resumed, resume_needs_key (a successful resumption found a live, keyed entry; the stream is switched to that key; identity/authentication are the entry's), dead_not_resumed, invalidated_is_dead, never_stored_is_dead, other_ops_do_not_revive, expired_lookup_removes, replay_rejected + digests_differ (a frame recorded on another connection does not authenticate once request/reply carry fresh values): kernel-checked. Tied to the code by the resume engine: histories over establish/expire/renew/invalidate/gc with scripted requests (right/wrong/no key, unknown id, one character off, with/without reply, other address) and replays of both directions of a recorded resumed connection (whole/truncated).",
         "level_note": "Guessability of session identifiers is noted, not proved. Replay protection holds for peers that send the fresh ResumeNonce (cedar both sides after the fix); a legacy peer that requests no reply gets none, so its own recorded traffic remains replayable against it — outside what cedar can bind.",
         "assumptions": ["a receive error is terminal"],
     },
